@@ -265,6 +265,10 @@ namespace Pistache::Http
 
             auto* response = static_cast<Response*>(message);
 
+            // The version can only be judged once all of its bytes are there
+            if (cursor.remaining() < strlen("HTTP/1.1"))
+                return State::Again;
+
             if (match_raw("HTTP/1.1", strlen("HTTP/1.1"), cursor))
             {
                 // response->version = Version::Http11;
